@@ -236,9 +236,17 @@ fn main() {
     let (n1, n2) = (16_000usize, 64_000usize);
     let mut scaling = vec![];
     for shape in SHAPES {
-        let t1 = time_shape(shape, n1);
-        let t2 = time_shape(shape, n2);
-        let ratio = if t1 > 0.0 { t2 / t1 } else { 0.0 };
+        let mut t1 = time_shape(shape, n1);
+        let mut t2 = time_shape(shape, n2);
+        let mut ratio = if t1 > 0.0 { t2 / t1 } else { 0.0 };
+        if t2 > 1.0 && ratio > 8.0 {
+            // suspicious: measure again, the two sizes interleaved (a load change between the two first measurements must not count)
+            for _ in 0..4 {
+                t1 = t1.min(time_shape(shape, n1));
+                t2 = t2.min(time_shape(shape, n2));
+            }
+            ratio = if t1 > 0.0 { t2 / t1 } else { 0.0 };
+        }
         scaling.push(serde_json::json!({"shape": shape, "n": [n1, n2], "seconds": [t1, t2], "ratio": ratio}));
         ctx.evaluations += 2;
         ctx.judged += 1;
